@@ -91,9 +91,13 @@ func sysLastCommit(s *Stack) *types.Commit {
 // ExecLedger is ChainExec.Exec plus the `syschain` op (which must work before any chain exists, where ExtraOps are not consulted).
 func (c *ChainExec) ExecLedger(op string) string {
 	toks := strings.Fields(op)
+	if len(toks) > 0 && toks[0] == "tokchain" {
+		return c.tokChain(toks)
+	}
 	if len(toks) == 0 || toks[0] != "syschain" {
-		if len(toks) > 0 && toks[0] == "case" {
+		if len(toks) > 0 && (toks[0] == "case" || toks[0] == "chain") {
 			delete(sysLedgers, c)
+			delete(tokLedgers, c)
 		}
 		return c.Exec(op)
 	}
